@@ -530,7 +530,7 @@ def replay(prop, r, keep=False):
     fcntl.flock(lockf, fcntl.LOCK_EX)
     try:
         p = subprocess.run(cmd, cwd=REPO, env=env, stdout=subprocess.PIPE, stderr=subprocess.STDOUT,
-                           text=True, errors="replace", preexec_fn=limit(max(spec.mem, 8) * 2))
+                           text=True, errors="replace", preexec_fn=limit(56))
     finally:
         fcntl.flock(lockf, fcntl.LOCK_UN)
         lockf.close()
